@@ -2,6 +2,7 @@ import Xo.Model.Assign
 import Xo.Lemmas.LayoutRT
 import Xo.Lemmas.Index
 import Xo.Model.RefGraph
+import Xo.Model.Placement
 /-! C11 — operations that cannot be honoured fail without side effects (property theorems only).
 The model's assignment returns either an error (and then there is no new memory: the buffer is what it was) or the new
 memory; these theorems say when each happens and that a success never leaves the slot's extent.  The ORDER of checks and
@@ -205,5 +206,88 @@ theorem C11_nonmember_refused (u : RG.Univ) (s : RG.St) (ha k ta : Nat) (h t : R
   | scal => rfl
   | ref c => simp only at hn; simp [hn]
   | uref cs => simp only at hn; simp [hn]
+
+/-! ### placement refusals (`typeutils.allocate_on_buffer`; component `place` runs `Place.decide` against the library for every
+combination of context / buffer / offset arguments) -/
+
+/-- **an explicit offset without a buffer is refused**, whatever the offset (a number - 0 included -, "aligned", "packed") and
+whether or not a context is given; nothing is decided before the refusal: no buffer is created, nothing is allocated -/
+theorem C11_offset_without_buffer_refused (dflt : Nat) (ctx : Option Nat) (off : Place.Off) (h : off ≠ .none) :
+    Place.decide dflt ⟨ctx, none, off⟩ = .error .offsetWithoutBuffer := by
+  simp [Place.decide, h]
+
+/-- **a buffer that belongs to a different context is refused**, for every offset argument -/
+theorem C11_foreign_context_refused (dflt b bc c : Nat) (off : Place.Off) (h : bc ≠ c) :
+    Place.decide dflt ⟨some c, some (b, bc), off⟩ = .error .mismatchedContext := by
+  simp [Place.decide, h]
+
+/-- the two refusals are the ONLY ones: a placement request is refused iff it gives an offset without a buffer, or a buffer and a
+context the buffer does not belong to -/
+theorem C11_placement_refused_iff (dflt : Nat) (r : Place.Req) :
+    (∃ e, Place.decide dflt r = .error e) ↔
+      (r.buf = none ∧ r.off ≠ .none) ∨ (∃ b bc c, r.buf = some (b, bc) ∧ r.ctx = some c ∧ bc ≠ c) := by
+  obtain ⟨ctx, buf, off⟩ := r
+  cases buf with
+  | none =>
+    by_cases h : off = .none
+    · subst h; simp [Place.decide]
+    · simp [Place.decide, h]
+  | some p =>
+    obtain ⟨b, bc⟩ := p
+    cases ctx with
+    | none => cases off <;> simp [Place.decide]
+    | some c =>
+      by_cases h : bc = c
+      · subst h; cases off <;> simp [Place.decide]
+      · cases off <;> simp [Place.decide, h] <;> exact ⟨b, bc, ⟨rfl, rfl⟩, h⟩
+
+/-- an accepted request goes to the GIVEN buffer when one is given, else to a new buffer of the given context (the default context
+when none is given); a numeric offset is used as it is and leaves the allocator untouched, the other forms allocate with / without
+alignment -/
+theorem C11_placement_accepted (dflt : Nat) (r : Place.Req) (sel : Place.BufSel) (how : Place.How)
+    (h : Place.decide dflt r = .ok (sel, how)) :
+    (match r.buf with
+     | some (b, _) => sel = .given b
+     | none => sel = .fresh (r.ctx.getD dflt)) ∧
+    (match r.off with
+     | .none => how = .alloc true
+     | .aligned => how = .alloc true
+     | .packed => how = .alloc false
+     | .at n => how = .at n ∧ ∀ s size, Place.apply s size how = some (n, s)) := by
+  obtain ⟨ctx, buf, off⟩ := r
+  cases buf with
+  | none =>
+    by_cases ho : off = .none
+    · subst ho
+      simp only [Place.decide, ne_eq, not_true_eq_false, ↓reduceIte, Except.ok.injEq, Prod.mk.injEq] at h
+      obtain ⟨h1, h2⟩ := h
+      exact ⟨h1.symm, h2.symm⟩
+    · simp [Place.decide, ho] at h
+  | some p =>
+    obtain ⟨b, bc⟩ := p
+    have key : ∀ s, (match ctx with
+        | some c => if bc ≠ c then (Except.error Place.Err.mismatchedContext : Except Place.Err Place.BufSel) else .ok (.given b)
+        | none => .ok (.given b)) = .ok s → s = .given b := by
+      intro s hs
+      cases ctx with
+      | none => simp at hs; exact hs.symm
+      | some c =>
+        by_cases hc : bc = c
+        · simp [hc] at hs; exact hs.symm
+        · simp [hc] at hs
+    simp only [Place.decide] at h
+    split at h
+    · cases h
+    · rename_i s hs
+      have hsb := key s hs
+      simp only [Except.ok.injEq, Prod.mk.injEq] at h
+      obtain ⟨h1, h2⟩ := h
+      refine ⟨by rw [← h1, hsb], ?_⟩
+      cases off <;> simp only at h2 ⊢ <;> first | exact h2.symm | (refine ⟨h2.symm, ?_⟩; intro s size; rw [← h2]; rfl)
+
+example : Place.decide 0 ⟨none, none, .at 0⟩ = .error .offsetWithoutBuffer ∧
+    Place.decide 0 ⟨some 1, some (7, 2), .none⟩ = .error .mismatchedContext ∧
+    Place.decide 0 ⟨some 2, some (7, 2), .packed⟩ = .ok (.given 7, .alloc false) ∧
+    Place.decide 0 ⟨none, none, .none⟩ = .ok (.fresh 0, .alloc true) := ⟨rfl, rfl, rfl, rfl⟩
 
 end Lay
